@@ -170,6 +170,12 @@ def run(tier, seed):
                     while len(c[key]) < c["n"]:
                         c[key].append(copy.deepcopy(c[key][0]))
                 c["kws"][1] = dict(c["kws"][1], stepsize=0.9)
+            if i == 1 or (i % 9 == 5):
+                # shapes that coincide: as many chains as dimensions, one shared (d, 1) starting model for all of them
+                while not (c["n"] >= 2 and c["d"] == c["n"]):
+                    c = gen_case(rnd)
+                c["im_mode"] = "shared"
+                dist["shared_model_square"] = dist.get("shared_model_square", 0) + 1
             probs = run_case(c, wd, i)
             dist["runs"] += 1
             dist["chains"] += c["n"]
